@@ -17,17 +17,26 @@ def custom(ctx):
 
 
 def nontrivial(req, obs):
+    # accepted-program streams: the compilation succeeded; diagnostics streams: the program really is rejected
+    if "\tdiag:" in req or "\tsrc:" in req:
+        return obs.startswith("err")
     return obs.startswith("ok")
 
 
 SPEC = {
     "id": "C07",
-    "gens": ["HashSites"],
-    "lean_modules": ["RsslVerif.Thm.C07", "RsslVerif.Thm.C02", "RsslVerif.Thm.C15"],
+    "gens": ["HashSites", "EnumRange"],
+    "lean_modules": ["RsslVerif.Thm.C07", "RsslVerif.Lemmas.EnumRange", "RsslVerif.Thm.C02", "RsslVerif.Thm.C15"],
     "theorems": [T + n for n in [
         "sort_perm_invariant", "collectSort_perm_invariant", "sortBy_key_perm_invariant",
-        "lookup_perm_invariant", "fold_perm_invariant", "hash_sites_covered",
-        "scoped_declarations_unobserved", "no_other_nondeterminism"]] + [
+        "lookup_perm_invariant", "fold_perm_invariant", "firstFailure_ok_perm_invariant", "firstFailure_perm_invariant",
+        # tie: inventory of hash-ordered traversals, each with the fingerprint and the effects of its body
+        "hash_sites_covered", "site_effects_reviewed", "classified_all_current",
+        "scoped_declarations_unobserved", "no_other_nondeterminism",
+        # worked example of a commutative fold: Context::end_enum transcribed (Model/EnumRange.lean)
+        "end_enum_shape_as_modelled", "end_enum_type_or_error_order_independent", "end_enum_panics_order_independent",
+        "gather_panic_message_order_dependent", "end_enum_order_independent", "blame_first_order_dependent"]] + [
+        "RsslVerif.Lemmas.EnumRange.foldl_perm_of_invariant",
         # the two non-trivial sites are proved order independent over the models of the code itself
         "RsslVerif.Thm.C02.closure_order_independent",      # usage-analysis fixpoint (recurse) vs key iteration order
         "RsslVerif.Thm.C02.required_order_independent",     # required_globals collect + sort
@@ -36,23 +45,36 @@ SPEC = {
     "harness": "c07",
     "custom": custom,
     "nontrivial": nontrivial,
-    "rule": "generated shader files (up to 10 resources, 6 helpers with call graphs, 5 static globals threaded on Metal, "
-            "3 pipelines) x 4 targets, plus the repository's own inputs under tests/ x {dx, msl}; each compiled 5 times in one "
-            "process and once in each of 3 fresh processes; all digests (sources, stages, metadata, state, diagnostics) must "
-            "be equal; non-trivial = the compilation succeeded",
+    "rule": "accepted programs: generated shader files (up to 10 resources, 6 helpers with call graphs, 5 static globals threaded on "
+            "Metal, 3 pipelines) x 4 targets, name-clash programs, plus the repository's own inputs under tests/ x {dx, msl}, each "
+            "compiled 5 times in one process and once in each of 3 fresh processes; rejected programs: 97 generated families "
+            "with >= 3 interchangeable offenders each (lexer, preprocessor, parser, 93 of 105 TyperError variants incl. enum "
+            "range / conflicts, overload ambiguity with candidate lists, redefinitions; layout check; pipeline errors; exporter "
+            "errors on every target) and the 504 rejected inputs of the repository's typer tests, each compiled 8 times in one "
+            "process and once in each of 3 fresh processes; all digests (sources, stages, metadata, state, fully rendered "
+            "diagnostics) must be equal; non-trivial = the compilation succeeded (accepted streams) / was rejected (diagnostics streams)",
     "level_text": "Proof of the logic, test of the runtime: every shape of hash-iteration site (collect+sort with an antisymmetric "
-                  "order or an injective key, insert under distinct keys, commutative fold) is proved invariant under every "
-                  "permutation of the iteration order, and the translator's inventory of iteration sites in the current source "
-                  "is proved to contain only reviewed, classified sites (a new HashMap iteration breaks the obligation). The "
-                  "actual SipHash seeds are runtime behaviour no model exhibits: they are exercised by repeated in-process and "
-                  "fresh-process compilations compared byte for byte.",
+                  "order or an injective key, insert under distinct keys, commutative fold, check-only loop) is proved invariant "
+                  "under every permutation of the iteration order; Context::end_enum - five loops over a Vec drained from a HashMap "
+                  "- is transcribed (Model/EnumRange.lean, compared with the regenerated Gen.EnumRange) and proved order "
+                  "independent as a whole, including the location and payload of its range error; the translator's inventory of "
+                  "traversals of hash ordered containers (HashMap/HashSet and Vecs filled from them) in the current source is "
+                  "proved to contain only reviewed sites WITH THE REVIEWED BODY (fingerprint per loop body), and a body that can "
+                  "leave early, builds a diagnostic or keeps a first value is never accepted as a commutative fold. The actual "
+                  "SipHash seeds are runtime behaviour no model exhibits: they are exercised by repeated in-process and "
+                  "fresh-process compilations of accepted and rejected programs compared byte for byte.",
     "trusted_base": [
         "Lean 4.33 kernel; axioms propext / Classical.choice / Quot.sound only",
-        "tools/gens/c07.py: heuristic inventory of HashMap/HashSet iteration sites (names bound to hash types per file, "
-        "hash-returning functions), uses of clocks/randomness/threads/env, consumers of ScopedDeclarations.variables",
-        "the classification of each site into a shape in Thm/C07.lean `classified` is a reviewed reading of the code, not "
-        "a theorem about the Rust code; for the usage-analysis fixpoint and NameMap::build the order independence is a "
-        "theorem over the C02 / C15 models (which are tied to the code by their own correspondence runs)",
+        "tools/gens/c07.py: heuristic inventory (regular expressions per file and function) of traversals of hash ordered "
+        "containers: names bound to hash types, hash-returning functions, std::mem::take/clone/reference of them, Vecs filled "
+        "inside such a traversal in the same function; per-site body fingerprint and effect flags; uses of "
+        "clocks/randomness/threads/env; consumers of ScopedDeclarations.variables. Not followed: hash ordered Vecs returned "
+        "from a function or pushed into a field",
+        "the classification of a site into a shape in Thm/C07.lean `classified` is a reviewed reading of the (fingerprinted) "
+        "body, not a theorem about the Rust code, except for the transcribed ones: end_enum (Model/EnumRange, tie "
+        "end_enum_shape_as_modelled), the usage-analysis fixpoint and required_globals (C02 models), NameMap::build (C15 model)",
+        "hypotheses of end_enum_order_independent are typer invariants read off the code: enum values are integer-like, value "
+        "ids and names distinct, one symbol per enumerator name in the parent scope",
         "Rust's sort/sort_by return a sorted permutation; HashMap = finite map with unspecified iteration order",
     ],
     "assumptions": ["single-threaded safe Rust has no other source of nondeterminism than hash iteration order"],
